@@ -448,6 +448,28 @@ def NoPartialDecoy (fs : FS) (filemap : FileMap) (pieceNodes : List (Bytes × Li
     (loc, pn.file.length) ∈ cands → fs.readFile? loc = some d → orig[pn.idx]? = some o →
     Impl.getPart pn.start pn.stop d = Impl.getPart pn.start pn.stop o → d = o
 
+/-- the accepted destinations of different file records are different and not nested (true of
+    every metafile made from a real directory tree) -/
+def DestsSeparate (dest : Path) (files : List FileRec) : Prop :=
+  ∀ (i j : Nat) (ri rj : FileRec) (di dj : Path), files[i]? = some ri → files[j]? = some rj →
+    Impl.safeJoin dest ri.full = some di → Impl.safeJoin dest rj.full = some dj → dj <+: di → i = j
+
+/-- nothing exists yet at the accepted destinations (rebuild into a fresh directory) -/
+def DestFresh (fs : FS) (dest : Path) (files : List FileRec) : Prop :=
+  ∀ r ∈ files, ∀ d, Impl.safeJoin dest r.full = some d → fs d = none
+
+/-- the hypothesis of known finding KF-C13-1: for the FIRST piece that has a node of a file, a
+    same-name same-size candidate that is enumerated BEFORE an intact copy `c` of the file and
+    agrees with the original on the node's range is identical to the original -/
+def NoFirstPieceDecoy (fs : FS) (filemap : FileMap) (pieceNodes : List (Bytes × List PathNode))
+    (orig : List Bytes) : Prop :=
+  ∀ pre pp post, pieceNodes = pre ++ pp :: post → ∀ pn ∈ pp.2,
+    (∀ pp' ∈ pre, ∀ pn' ∈ pp'.2, pn'.idx ≠ pn.idx) →
+    ∀ cands l1 c l2 o, filemap.lookup pn.file.filename = some cands → cands = l1 ++ c :: l2 →
+      c.2 = pn.file.length → fs.readFile? c.1 = some o → orig[pn.idx]? = some o →
+      ∀ x ∈ l1, x.2 = pn.file.length → ∀ d, fs.readFile? x.1 = some d →
+        Impl.getPart pn.start pn.stop d = Impl.getPart pn.start pn.stop o → d = o
+
 /-- a property of every operation of a trace, evaluated in the state in which it is executed -/
 def TraceAll (P : FS → Op → Prop) : FS → List Op → Prop
   | _, [] => True
@@ -466,6 +488,8 @@ def fs2 : FS := FS.ofList [([], .dir), ([[100]], .dir), ([[115]], .dir), ([[115]
   ([[115], [107], [102]], .file [1, 2, 9, 9]), ([[115], [102]], .file [1, 2, 3, 4])]
 /-- `{"f": [("/s/k/f", 4), ("/s/f", 4)]}` -/
 def fmap2 : FileMap := [([102], [([[115], [107], [102]], 4), ([[115], [102]], 4)])]
+/-- the same files with the original enumerated first: `{"f": [("/s/f", 4), ("/s/k/f", 4)]}` -/
+def fmap3 : FileMap := [([102], [([[115], [102]], 4), ([[115], [107], [102]], 4)])]
 end Rebuild.Ex
 
 end TorrentVerif
